@@ -293,26 +293,7 @@ func runC05(c *Ctx) {
 		}
 	}
 	r.Floor("R05.1", 1, "write statements")
-	// a function of the package that calls a writing function writes as well (the statement
-	// may have been extracted into a helper)
-	for changed := true; changed; {
-		changed = false
-		for _, fn := range p.KetoFuncs(sqlPkgRel) {
-			if fn.Parent() != nil || writeOps[fn] || isMigrationOrTestHelper(fn) {
-				continue
-			}
-			for _, g := range core.Closures(fn) {
-				core.Instrs(g, func(_ *ssa.BasicBlock, _ int, ins ssa.Instruction) {
-					if ci, ok := ins.(ssa.CallInstruction); ok {
-						if sc := ci.Common().StaticCallee(); sc != nil && writeOps[sc] && !writeOps[fn] {
-							writeOps[fn] = true
-							changed = true
-						}
-					}
-				})
-			}
-		}
-	}
+	closeWriteOps(p, writeOps)
 
 	// R05.2 (contexts): every context argument inside a transaction literal derives from its ctx
 	for f := range tx {
@@ -690,4 +671,27 @@ func highIsWindow(hi ssa.Value, lo ssa.Value, k int64, isInput func(ssa.Value) b
 		}
 	}
 	return hasEnd && hasLen
+}
+
+// closeWriteOps: a function of persistence/sql that calls a writing function writes as well (the
+// statement may have been extracted into a helper).
+func closeWriteOps(p *core.Program, writeOps map[*ssa.Function]bool) {
+	for changed := true; changed; {
+		changed = false
+		for _, fn := range p.KetoFuncs(sqlPkgRel) {
+			if fn.Parent() != nil || writeOps[fn] || isMigrationOrTestHelper(fn) {
+				continue
+			}
+			for _, g := range core.Closures(fn) {
+				core.Instrs(g, func(_ *ssa.BasicBlock, _ int, ins ssa.Instruction) {
+					if ci, ok := ins.(ssa.CallInstruction); ok {
+						if sc := ci.Common().StaticCallee(); sc != nil && writeOps[sc] && !writeOps[fn] {
+							writeOps[fn] = true
+							changed = true
+						}
+					}
+				})
+			}
+		}
+	}
 }
